@@ -21,6 +21,7 @@ import (
 	"github.com/ipld/go-ipld-prime"
 	"github.com/ipld/go-ipld-prime/codec/dagcbor"
 	"github.com/ipld/go-ipld-prime/datamodel"
+	"github.com/ipld/go-ipld-prime/node/basicnode"
 	"github.com/multiformats/go-multihash"
 
 	"github.com/ucan-wg/go-ucan/did"
@@ -50,9 +51,15 @@ func point(s Seam) {
 type Variant struct {
 	Keys    []string `json:"keys"`    // argument and metadata keys in insertion order
 	Decoded bool     `json:"decoded"` // tokens went through seal -> unseal
+	// WireAud (decoded variants only): the invocation's envelope is re-assembled with an `aud` field equal to
+	// `sub` and signed again by the invoker - a shape no constructor produces but every decoder must cope with
+	WireAud bool `json:"wire_aud,omitempty"`
 }
 
 func (v Variant) String() string {
+	if v.WireAud {
+		return fmt.Sprintf("keys=%s,decoded=%v,aud=sub-on-the-wire", strings.Join(v.Keys, ""), v.Decoded)
+	}
 	return fmt.Sprintf("keys=%s,decoded=%v", strings.Join(v.Keys, ""), v.Decoded)
 }
 
@@ -67,6 +74,7 @@ func Variants() []Variant {
 			res = append(res, Variant{Keys: o, Decoded: dec})
 		}
 	}
+	res = append(res, Variant{Keys: []string{}, Decoded: true, WireAud: true}, Variant{Keys: []string{"a", "b", "c"}, Decoded: true, WireAud: true})
 	return res
 }
 
@@ -190,6 +198,9 @@ func NewFixture(v Variant) *Fixture {
 		if err != nil {
 			panic(err)
 		}
+		if v.WireAud {
+			b = withWireAud(b, root.DID.String(), leaf)
+		}
 		inv, _, err = invocation.FromSealed(b)
 		if err != nil {
 			panic(err)
@@ -245,6 +256,20 @@ func (l loader) GetDelegation(c cid.Cid) (*delegation.Token, error) {
 		if x == c {
 			return l.f.Dlgs[i], nil
 		}
+	}
+	return nil, delegation.ErrDelegationNotFound
+}
+
+// partialLoader is another loader over the same tokens: it does not have the root delegation.
+type partialLoader struct {
+	f *Fixture
+	s Seam
+}
+
+func (l partialLoader) GetDelegation(c cid.Cid) (*delegation.Token, error) {
+	point(l.s)
+	if c == l.f.Cids[0] {
+		return l.f.Dlgs[0], nil
 	}
 	return nil, delegation.ErrDelegationNotFound
 }
@@ -306,6 +331,64 @@ var ctnCache sync.Map
 type ctnCached struct {
 	car         []byte
 	real, alias []cid.Cid
+}
+
+// withWireAud re-assembles a sealed invocation with the payload field aud = audience and signs it with key.
+func withWireAud(sealed []byte, audience string, key *fixtures.Key) []byte {
+	n, err := ipld.Decode(sealed, dagcbor.Decode)
+	if err != nil {
+		panic(err)
+	}
+	sp, _ := n.LookupByIndex(1)
+	nb := basicnode.Prototype.Map.NewBuilder()
+	ma, _ := nb.BeginMap(2)
+	it := sp.MapIterator()
+	for !it.Done() {
+		k, v, _ := it.Next()
+		ks, _ := k.AsString()
+		if ks == "h" {
+			ma.AssembleKey().AssignString(ks)
+			ma.AssembleValue().AssignNode(v)
+			continue
+		}
+		pb := basicnode.Prototype.Map.NewBuilder()
+		pa, _ := pb.BeginMap(v.Length() + 1)
+		pit := v.MapIterator()
+		for !pit.Done() {
+			pk, pv, _ := pit.Next()
+			pks, _ := pk.AsString()
+			if pks == "aud" {
+				continue
+			}
+			pa.AssembleKey().AssignString(pks)
+			pa.AssembleValue().AssignNode(pv)
+		}
+		pa.AssembleKey().AssignString("aud")
+		pa.AssembleValue().AssignString(audience)
+		pa.Finish()
+		ma.AssembleKey().AssignString(ks)
+		ma.AssembleValue().AssignNode(pb.Build())
+	}
+	ma.Finish()
+	newSP := nb.Build()
+	signed, err := ipld.Encode(newSP, dagcbor.Encode)
+	if err != nil {
+		panic(err)
+	}
+	sig, err := key.Priv.Sign(signed)
+	if err != nil {
+		panic(err)
+	}
+	lb := basicnode.Prototype.List.NewBuilder()
+	la, _ := lb.BeginList(2)
+	la.AssembleValue().AssignBytes(sig)
+	la.AssembleValue().AssignNode(newSP)
+	la.Finish()
+	out, err := ipld.Encode(lb.Build(), dagcbor.Encode)
+	if err != nil {
+		panic(err)
+	}
+	return out
 }
 
 type Op struct {
@@ -402,6 +485,7 @@ func Ops() []Op {
 			return strings.Join(r, ",")
 		}},
 		{"inv.Meta.String", func(f *Fixture, s Seam) string { return sortedLines(f.Inv.Meta().String()) }},
+		{"with-another-loader(which lacks the root delegation): inv.ExecutionAllowed", func(f *Fixture, s Seam) string { return errStr(f.Inv.ExecutionAllowed(partialLoader{f, s})) }},
 		{"ctnInv.ExecutionAllowed(container.Reader as loader)", func(f *Fixture, s Seam) string { return errStr(f.CtnInv.ExecutionAllowed(f.Ctn)) }},
 		{"aliasInv.ExecutionAllowed(container.Reader as loader; proofs named by raw-codec CIDs)", func(f *Fixture, s Seam) string {
 			return errStr(f.AliasInv.ExecutionAllowed(f.Ctn))
